@@ -161,3 +161,62 @@ void dir_p06(void) {
         emit2(line);
     }
 }
+
+
+/* ---- C01, second sentence: complete NUL-terminated lines handed straight to the line parser, SCPI_Parse(ctx, line, strlen),
+ * pseudo-chunk =L<hex>.  The line lives in an exact-size object (len + 1 bytes): any read or write outside it traps.
+ * Lines are well-formed messages (with and without a terminator of their own), mutated ones, and binary noise; several
+ * lines on one context, mixed now and then with ordinary SCPI_Input calls (pending input must be left alone). */
+void dom_pline(void) {
+    static const ent_t pool[] = {
+        {"SYSTem:ERRor[:NEXT]?", "iT/rI,32,1,1,10"}, {"[:MEASure]:VOLTage#:AC?", "iN,2,-1/rI,32,1,4,10"}, {"OUTPut#:FREQuency#", "iN,3,1/pI,32,1,0"},
+        {"*IDN?", "rC,4d414e55/rC,4d4f44"}, {"TEST:A", "iT"}, {"TEST:A:B", "iT"}, {"TEST[:A]:C", "iT"}, {"I32", "pI,32,1,1"}, {"DBL", "pF,1,1"},
+        {"NUM", "pN,1"}, {"CHR", "pH,1"}, {"BLK", "pK,1"}, {"TXT", "pT,1,16"}, {"TXT3", "pT,1,3"}, {"ARR", "pA,32,1,3,1"}, {"BOOL", "pB,0"}, {"CHO", "pC,1,0"},
+        {"ECHO?", "pI,32,1,1/rI,32,1,7,10"}, {"Q2?", "rI,32,1,1,10/rT,6122/rB,0"}, {"R:BLK?", "rK,0001020a0d3b"}, {"NOP", "iT"}, {"FAIL", "ret,0"}, {"NOOP", "null"},
+    };
+    static const char *frag[] = { "1", "-5", "#HFF", "1.5e3", "12 V", "1 e 3", "MAX", "abc", "\"text\"", "'s'", "\"a\"\"b\"", "#13abc", "#15a;b\n1", "(1:2,3)", "(@1!2)",
+        "\"unterminated", "#", "#1", "#15ab", "#210abc", "(", "1,,2", ",", "\x80", "1 2", "e5", "#Hzz", "2147483648", "18446744073709551616", "1e400", ".", "" };
+    static const char *hdrs[] = { "SYST:ERR?", "MEAS:VOLT3:AC?", "VOLT:AC?", "OUTP2:FREQ5", "*IDN?", "TEST:A", "TEST:A:B", "TEST:C", ":TEST:A:C", "B", "C", "I32", "DBL", "NUM", "CHR", "BLK",
+        "TXT", "TXT3", "ARR", "BOOL", "CHO", "ECHO?", "Q2?", "R:BLK?", "NOP", "FAIL", "NOOP", "FOO", "*XYZ", ":", "*", "A?B", "TEST:", "outp:freq" };
+    unsigned long n = h_thorough ? 300000 : 30000;
+    static char line[60000], table[8000], msg[2048];
+    table_of(table, pool, (int)(sizeof pool / sizeof pool[0]));
+    for (; n; n--) {
+        int lines = 1 + (int) h_below(4), l; size_t k;
+        k = (size_t) sprintf(line, "P %d %d %s", h_chance(60) ? 64 : 2 + (int) h_below(40), 1 + (int) h_below(6), table);
+        for (l = 0; l < lines; l++) {
+            size_t ml = 0; int units = 1 + (int) h_below(3), u; unsigned mut, i;
+            if (h_chance(6)) {                          /* binary noise */
+                ml = h_below(40); for (i = 0; i < ml; i++) msg[i] = (char) (1 + h_below(255));
+            } else {
+                for (u = 0; u < units; u++) {
+                    int np = (int) h_below(4), p;
+                    if (u) msg[ml++] = ';';
+                    if (h_chance(10)) msg[ml++] = ' ';
+                    ml += (size_t) sprintf(msg + ml, "%s", hdrs[h_below((unsigned)(sizeof hdrs / sizeof hdrs[0]))]);
+                    for (p = 0; p < np; p++) ml += (size_t) sprintf(msg + ml, "%s%s", p ? (h_chance(30) ? " , " : ",") : " ", frag[h_below((unsigned)(sizeof frag / sizeof frag[0]))]);
+                }
+                { unsigned t = h_below(10); if (t < 2) msg[ml++] = '\n'; else if (t < 3) { msg[ml++] = '\r'; msg[ml++] = '\n'; } else if (t < 4) { msg[ml++] = '\n'; ml += (size_t) sprintf(msg + ml, "NOP"); } }
+                mut = h_chance(35) ? 1 + h_below(4) : 0;
+                for (i = 0; i < mut && ml; i++) {
+                    unsigned kind = h_below(5), at = h_below((unsigned) ml);
+                    if (kind == 0) msg[at] = (char) (1 + h_below(255));
+                    else if (kind == 1 && ml > 1) { memmove(msg + at, msg + at + 1, ml - at - 1); ml--; }
+                    else if (kind == 2 && ml < 2000) { memmove(msg + at + 1, msg + at, ml - at); ml++; }
+                    else if (kind == 3) msg[at] = "\"'#(),;:*?\n\r \t"[h_below(14)];
+                    else ml = at;
+                }
+            }
+            /* a NUL-terminated line has no NUL inside */
+            { size_t j; for (j = 0; j < ml; j++) if (!msg[j]) msg[j] = ' '; }
+            if (h_chance(12)) {                         /* an ordinary input call in between (possibly leaving input pending) */
+                line[k++] = ' '; k += hexs(line + k, msg, ml);
+                if (h_chance(30)) k += (size_t) sprintf(line + k, " -");
+            } else {
+                k += (size_t) sprintf(line + k, " =L"); if (ml) k += hexs(line + k, msg, ml);
+            }
+        }
+        line[k] = 0;
+        emit2(line);
+    }
+}
